@@ -319,7 +319,15 @@ func famHostile(w *World) {
 		}
 		c.c.Close()
 	}
-	w.quiesce(12*time.Second, true)
+	// "once all calls have completed, failed or timed out": a hostile peer may
+	// have started calls with any ttl, so it hangs up first (ending its calls on
+	// a directly connected server), and what it started through a relay is
+	// bounded by the relay's maximum timeout (2m by default) plus the tombstone
+	// period
+	for _, rp := range w.RawPeers {
+		rp.CloseAll()
+	}
+	w.quiesce(3*time.Minute, true)
 }
 
 var _ = simrt.Elapsed
